@@ -57,6 +57,16 @@ func e2eRun(t *testing.T, it e2eItem, tag string) (rule, what string, trace []st
 	if bs == "" {
 		bs = "FIX.4.2"
 	}
+	defer func() {
+		// the bubble ends with goroutines of the library blocked for ever, or cannot go on because every goroutine
+		// is blocked (an engine that no longer serves its connection, a Stop() that never returns)
+		if r := recover(); r != nil {
+			rule, what = "engine-goroutine-blocked-for-ever", fmt.Sprint(r)
+			if trace == nil {
+				trace = actions
+			}
+		}
+	}()
 	synctest.Test(t, func(t *testing.T) {
 		s, e := e2e.New(e2e.Ctl{Barrier: synctest.Wait, Sleep: time.Sleep}, bs, rdir, tag)
 		if e != nil {
@@ -84,7 +94,11 @@ func e2eRun(t *testing.T, it e2eItem, tag string) (rule, what string, trace []st
 			case strings.HasPrefix(a, "send A-"):
 				s.Send(false)
 			case a == "cut":
-				s.Cut()
+				if it.Mode == 1 {
+					s.CutWritesFirst()
+				} else {
+					s.Cut()
+				}
 			case a == "restart I=true":
 				if e := s.Restart(true); e != nil {
 					err = e
@@ -123,6 +137,9 @@ func e2eRun(t *testing.T, it e2eItem, tag string) (rule, what string, trace []st
 			case strings.Join(mA, ",") != strings.Join(rA, ",") || strings.Join(mI, ",") != strings.Join(rI, ","):
 				diverge = fmt.Sprintf("deliveries: model %v/%v, real %v/%v", mA, mI, rA, rI)
 			}
+		}
+		if it.Mode == 1 {
+			diverge = "not comparable: the cuts happen with the writes failing first"
 		}
 		for _, a := range actions {
 			if a == "late-flush" {
